@@ -131,11 +131,19 @@ Proof.
   - destruct (merge servers_schema ty um wm None b written); intros H; discriminate H.
 Qed.
 
-Lemma hand_rule_status ty h base q c : hand_rule ty h base q = Some (inr c) -> is_status c = true.
+Lemma keyed_write_status ty key um b res c :
+  keyed_write ty key um b res = Some (inr c) -> is_status c = true.
+Proof.
+  unfold keyed_write. destruct (plain_write ty None um (Some b) res) as [[v|c']|] eqn:E; [| |discriminate].
+  - destruct (String.eqb _ _); intros H; inversion H. reflexivity.
+  - intros H. inversion H; subst c'. apply (plain_write_status _ _ _ _ _ _ E).
+Qed.
+
+Lemma hand_rule_status ty h base q obs c : hand_rule ty h base q obs = Some (inr c) -> is_status c = true.
 Proof.
   unfold hand_rule. destruct (u_res q) as [res|]; [|discriminate].
   destruct (has_negzero res); [discriminate|].
-  destruct h as [resw|flag resw| |].
+  destruct h as [resw|flag resw| | |key ec| | | |].
   - apply plain_write_status.
   - destruct (populated flag (u_req q)); [discriminate|apply plain_write_status].
   - apply plain_write_status.
@@ -144,6 +152,24 @@ Proof.
     destruct (fan_of b) as [old|]; [|discriminate]. destruct (fan_of res) as [req|]; [|discriminate].
     destruct (fst (fan_update fan_presets old req false)) as [f|c'|]; try discriminate.
     destruct (c' =? 3)%Z; [|discriminate]. intros H. inversion H. reflexivity.
+  - destruct (String.eqb (vstr key res) ""); [intros H; inversion H; destruct ec; reflexivity|].
+    destruct base as [b|]; [|discriminate]. apply keyed_write_status.
+  - destruct base as [b|]; [|discriminate].
+    destruct (plain_write (ty) None (u_um q) (Some b) res) as [[v|c']|] eqn:E; try discriminate.
+    intros H. inversion H; subst c'. apply (plain_write_status _ _ _ _ _ _ E).
+  - destruct (String.eqb (vstr "id" res) ""); [intros H; inversion H; reflexivity|].
+    destruct base as [b|]; [|discriminate].
+    destruct (keyed_write ty "id" (u_um q) b res) as [[v|c']|] eqn:E; try discriminate.
+    + destruct (_ && _); intros H; inversion H. reflexivity.
+    + intros H. inversion H; subst c'. apply (keyed_write_status _ _ _ _ _ _ E).
+  - destruct (String.eqb (vstr "id" res) ""); [intros H; inversion H; reflexivity|].
+    destruct (alookup (vstr "id" res) electric_modes) as [mode|]; [|intros H; inversion H; reflexivity].
+    destruct base as [b|]; [|discriminate].
+    destruct (plain_write ty None None (Some b) mode) as [[v|c']|] eqn:E; try discriminate.
+    intros H. inversion H; subst c'. apply (plain_write_status _ _ _ _ _ _ E).
+  - destruct (vget "@presets" (u_req q)) as [x|]; [|discriminate].
+    destruct x as [sc| | |]; try discriminate. destruct sc as [n| | | | | |]; try discriminate.
+    destruct (light_prepare (Z.to_nat n) (u_um q) res) as [res1 um1]. apply plain_write_status.
 Qed.
 
 Lemma hybrid_status server ty reqs evs :
@@ -153,8 +179,8 @@ Proof.
   intros H b q c. unfold hybrid_rule.
   destruct (alookup server hand_table) as [h|]; [|apply (oracle_status evs H)].
   destruct (nth_error reqs q) as [rq|]; [|apply (oracle_status evs H)].
-  destruct (hand_rule ty h b rq) as [[v|c']|] eqn:Eh; [discriminate| |apply (oracle_status evs H)].
-  intros E. inversion E; subst c'. apply (hand_rule_status _ _ _ _ _ Eh).
+  destruct (hand_rule ty h b rq _) as [[v|c']|] eqn:Eh; [discriminate| |apply (oracle_status evs H)].
+  intros E. inversion E; subst c'. apply (hand_rule_status _ _ _ _ _ _ Eh).
 Qed.
 
 Theorem judge_sound_core : forall server init evs streams eqt reqs,
@@ -196,6 +222,92 @@ Proof.
     + destruct k; [exact Hg|exact I].
     + destruct k; [exact Hg|exact I].
 Qed.
+
+(* ---- an observation that agrees with the model run conforms to the hand rules: [C14_rules_ok] reads the
+   register off the trace and asks the written-out rule directly; the model run is the simulation ---- *)
+Lemma hybrid_is_hand_part server ty reqs rs b n :
+  hybrid_rule server ty reqs rs b n =
+  match hand_part server ty reqs rs b n with
+  | Some (inl v) => inl (snap v (oracle_rule rs b n))
+  | Some (inr c) => inr c
+  | None => oracle_rule rs b n
+  end.
+Proof.
+  unfold hybrid_rule, hand_part.
+  destruct (alookup server hand_table) as [h|]; [|reflexivity].
+  destruct (nth_error reqs n) as [q|]; reflexivity.
+Qed.
+
+Lemma hybrid_conforms server ty reqs rs b n :
+  conforms_to (hand_part server ty reqs rs b n) (hybrid_rule server ty reqs rs b n) = true.
+Proof.
+  rewrite hybrid_is_hand_part. destruct (hand_part server ty reqs rs b n) as [[v|c]|]; simpl.
+  - unfold snap. destruct (oracle_rule rs b n) as [w|c].
+    + destruct (value_equiv v w) eqn:E; [rewrite E; reflexivity|]. rewrite value_eqb_refl. apply orb_true_r.
+    + rewrite value_eqb_refl. apply orb_true_r.
+  - apply Z.eqb_refl.
+  - reflexivity.
+Qed.
+
+Section RulesWalk.
+  Variable f : rmask -> value -> value.
+  Variable rule : option value -> nat -> value + Z.
+  Variable hp : option value -> nat -> option (value + Z).
+  Hypothesis rule_conforms : forall b n, conforms_to (hp b n) (rule b n) = true.
+
+  Lemma rules_walk_run evs : forall n (s s2 : sstate value rmask) resps,
+    run value_eqb (VM []) f (fun _ : option value => true) clock rule true dev_names s (reqs_of n evs) = (s2, resps) ->
+    all2 resp_matches resps evs = true ->
+    rules_walk hp (Impl.v_val (ss_v s)) n evs = true.
+  Proof.
+    induction evs as [|e r IH]; intros n s s2 resps H Hm; [reflexivity|].
+    destruct e as [name k resp|name resp|name k uo|i|i]; cbn [reqs_of GenericServer.run] in H.
+    - destruct (step _ _ _ _ _ _ _ _ s (QGet name k)) as [s1 p] eqn:E1.
+      destruct (run _ _ _ _ _ _ _ _ s1 (reqs_of n r)) as [s' ps'] eqn:E2. inversion H; subst.
+      cbn [all2] in Hm. apply andb_prop in Hm. destruct Hm as [_ Hm]. cbn [rules_walk].
+      specialize (IH _ _ _ _ E2 Hm). simpl in E1.
+      match type of E1 with (if ?c then _ else _) = _ => destruct c end; inversion E1; subst; exact IH.
+    - destruct (step _ _ _ _ _ _ _ _ s (QUpdate name n)) as [s1 p] eqn:E1.
+      destruct (run _ _ _ _ _ _ _ _ s1 (reqs_of (S n) r)) as [s' ps'] eqn:E2. inversion H; subst.
+      cbn [all2] in Hm. apply andb_prop in Hm. destruct Hm as [Hp Hm]. cbn [rules_walk].
+      specialize (IH _ _ _ _ E2 Hm). rewrite step_update in E1.
+      change (t_routed dev_names name) with (routed dev_names name).
+      destruct (routed dev_names name).
+      + pose proof (rule_conforms (Impl.v_val (ss_v s)) n) as Hc.
+        destruct (rule (Impl.v_val (ss_v s)) n) as [nv|c] eqn:Er; inversion E1; subst; cbn [resp_matches] in Hp;
+          apply upd_eqb_sound in Hp; subst resp; rewrite Hc; exact IH.
+      + inversion E1; subst. exact IH.
+    - destruct (step _ _ _ _ _ _ _ _ s (QPull name k uo)) as [s1 p] eqn:E1.
+      destruct (run _ _ _ _ _ _ _ _ s1 (reqs_of n r)) as [s' ps'] eqn:E2. inversion H; subst.
+      cbn [all2] in Hm. apply andb_prop in Hm. destruct Hm as [_ Hm]. cbn [rules_walk].
+      specialize (IH _ _ _ _ E2 Hm). simpl in E1. inversion E1; subst. exact IH.
+    - destruct (step _ _ _ _ _ _ _ _ s (QCancel i)) as [s1 p] eqn:E1.
+      destruct (run _ _ _ _ _ _ _ _ s1 (reqs_of n r)) as [s' ps'] eqn:E2. inversion H; subst.
+      cbn [all2] in Hm. apply andb_prop in Hm. destruct Hm as [_ Hm]. cbn [rules_walk].
+      specialize (IH _ _ _ _ E2 Hm). simpl in E1. inversion E1; subst. exact IH.
+    - destruct (step _ _ _ _ _ _ _ _ s (QStall i)) as [s1 p] eqn:E1.
+      destruct (run _ _ _ _ _ _ _ _ s1 (reqs_of n r)) as [s' ps'] eqn:E2. inversion H; subst.
+      cbn [all2] in Hm. apply andb_prop in Hm. destruct Hm as [_ Hm]. cbn [rules_walk].
+      specialize (IH _ _ _ _ E2 Hm). simpl in E1. inversion E1; subst. exact IH.
+  Qed.
+End RulesWalk.
+
+Theorem judge_rules_core : forall server init evs streams eqt reqs,
+  agrees_core variant_of server init evs streams eqt reqs = true -> rules_core server init evs reqs = true.
+Proof.
+  intros server init evs streams eqt reqs Ha. unfold agrees_core, rules_core in *.
+  destruct (info_of server) as [info|]; [|discriminate].
+  unfold model_run, variant_of in Ha. cbn [get_filter_of live_of] in Ha.
+  destruct (run value_eqb (VM []) (model_filter (sv_type info)) (fun _ : option value => true) clock
+              (hybrid_rule server (sv_type info) reqs (update_resps evs)) true dev_names
+              (srv_init rmask clock (Some init)) (reqs_of 0 evs)) as [s resps] eqn:Er.
+  apply andb_prop in Ha. destruct Ha as [Hr _].
+  exact (rules_walk_run (model_filter (sv_type info)) _ _ (hybrid_conforms server (sv_type info) reqs (update_resps evs))
+           evs 0%nat _ _ _ Er Hr).
+Qed.
+
+Theorem judge_rules_all : forall c, agrees c = true -> C14_rules_ok c = true.
+Proof. intros c Ha. exact (judge_rules_core _ _ _ _ _ _ Ha). Qed.
 
 (* for every case, with or without oracle table and requests *)
 Theorem judge_sound_all : forall c,
